@@ -91,24 +91,21 @@ Theorem C08_stream_runners :
   (forall s, kreach s -> mreach (rm s)).
 Proof. exact machines_reachable. Qed.
 
-(* The channel is closed only after the subscriber's context was cancelled.  Since the forwarder
-   repair (send-or-ctx.Done, C18) a cancelled subscriber's wrapped channel carries a PREFIX of its
-   stream and is then closed: a value the forwarder was holding when the context ended may be
-   abandoned.  When the forwarder ended the ordinary way (manager channel closed, nothing in its
-   hand: [hand x = None]) the consumer has received the complete stream up to its un-registration. *)
+(* The channel is closed only after the subscriber's context was cancelled; when the consumer sees
+   the close it has received the complete stream up to its un-registration - provided nothing was
+   dropped for it ([dropped x = false]).  [dropped] is set by a broadcast timeout (consumer slower than
+   5 s) and, since the forwarder repair of C18 (send-or-ctx.Done), also when the forwarder discards a
+   value AFTER the cancel because the wrapped channel is full (consumer not reading any more): a
+   cancelled subscriber that stopped reading gets a shorter stream, one that keeps reading gets
+   everything (the forwarder prefers the send and only gives a value up when it would block). *)
 Theorem C08_stream_closed : forall s i x,
   mreach s -> nth_error (subs s) i = Some x -> gotclosed x = true ->
-  cancelled x = true /\ sg x = SLive /\
-  (dropped x = false ->
-   exists rest, expected_stream (hist s) (reg_at x) (read_at x) (endp (length (hist s)) x) = got x ++ rest) /\
-  (hand x = None ->
-   unsub x = true /\
-   (dropped x = false -> got x = expected_stream (hist s) (reg_at x) (read_at x) (unsub_at x))).
+  cancelled x = true /\ unsub x = true /\
+  (dropped x = false -> got x = expected_stream (hist s) (reg_at x) (read_at x) (unsub_at x)).
 Proof. exact stream_closed_machine. Qed.
 
-(* A subscriber that keeps up loses nothing while its wrapped channel is open - in particular while
-   its context is live (C08_stream_closed_only_after_cancel): everything it is owed has been received
-   or is in flight (wrapped channel, forwarder's hand, manager channel, broadcast in progress), in order. *)
+(* A subscriber that keeps up loses nothing: everything it is owed has been received or is in flight
+   (wrapped channel, forwarder's hand, manager channel, broadcast in progress), in order. *)
 Theorem C08_stream_in_flight : forall s i x,
   mreach s -> nth_error (subs s) i = Some x -> dropped x = false -> sg x = SLive ->
   got x ++ wch x ++ olist (hand x) ++ bch x ++ (if memn i (pend s) then [cur s] else []) =
